@@ -404,16 +404,30 @@ class Executor:
             return None
         spec = "".join(c.value for c in fv.format_spec.values if isinstance(c, ast.Constant))
         m = _re.fullmatch(r"0(\d)d", spec)
-        if m is None:
+        if m is None and spec not in ("d", ""):
             return None
-        n = int(m.group(1))
         chk = z3.Solver()
         chk.set("timeout", 5000)
         for c in st.pc:
             chk.add(z(c))
-        chk.add(z3.Not(z3.And(x >= 0, x < 10 ** n)))
-        if chk.check() != z3.unsat:
-            return None
+        if m is not None:
+            n = int(m.group(1))
+            chk.add(z3.Not(z3.And(x >= 0, x < 10 ** n)))
+            if chk.check() != z3.unsat:
+                return None
+        else:
+            # unpadded: a CharStr only when the NUMBER OF DIGITS is the same on the whole path (10**(n-1) <= x < 10**n)
+            n = None
+            for k in (4, 1, 2, 3, 5, 6):
+                chk.push()
+                chk.add(z3.Not(z3.And(x >= (10 ** (k - 1) if k > 1 else 0), x < 10 ** k)))
+                r = chk.check()
+                chk.pop()
+                if r == z3.unsat:
+                    n = k
+                    break
+            if n is None:
+                return None
         from .strings import CharStr
 
         ds = [self.fresh.int("dec") for _ in range(n)]
